@@ -8,6 +8,7 @@ from ml_pipeline_engine.dag import EdgeField
 from ml_pipeline_engine.dag import NodeField
 from ml_pipeline_engine.dag.graph import DiGraph
 from ml_pipeline_engine.dag_builders.annotation import errors
+from ml_pipeline_engine.dag_builders.annotation.marks import GenericInputMark
 from ml_pipeline_engine.dag_builders.annotation.marks import InputGenericMark
 from ml_pipeline_engine.dag_builders.annotation.marks import InputMark
 from ml_pipeline_engine.dag_builders.annotation.marks import InputOneOfMark
@@ -97,7 +98,7 @@ class AnnotationDAGBuilder:
         inputs = []
         for name, annotation in node.__annotations__.items():
 
-            if isinstance(annotation, InputGenericMark):
+            if isinstance(annotation, (InputGenericMark, GenericInputMark)):
                 raise errors.NonRedefinedGenericTypeError(
                     f'Для использования узлов общего назначения необходимо их переопределение для целевого графа. '
                     f'param_name={name}, node={node}, ',
